@@ -574,6 +574,12 @@ func (x *Exec) evalCall(env *Env, e *Expr) (Val, error) {
 			return nil, err
 		}
 		return Con(SCoin, args[0], args[1]), nil
+	case "coinat": // coinat(coins, i): the i-th listed coin of a coins value
+		if err := need(2); err != nil {
+			return nil, err
+		}
+		d := UF("coins_denom_at", SStr, args[0], args[1])
+		return Con(SCoin, d, Select(args[0], d)), nil
 	case "nocoins":
 		return ZeroOf(SCoins), nil
 	case "addcoin": // addcoin(coins, denom, amount)
